@@ -80,6 +80,8 @@ impl Event {
                     ..Default::default()
                 };
 
+                let (mut seen_expected_version, mut seen_payload, mut seen_metadata) =
+                    (false, false, false);
                 for arg in args {
                     match arg {
                         OptionalArg::EventId(event_id) => {
@@ -92,7 +94,7 @@ impl Event {
                             cmd.event_id = Some(event_id);
                         }
                         OptionalArg::ExpectedVersion(expected_version) => {
-                            if !matches!(cmd.expected_version, ExpectedVersion::Any) {
+                            if std::mem::replace(&mut seen_expected_version, true) {
                                 return Err(easy::Error::message_format(
                                     "expected version already specified",
                                 ));
@@ -110,7 +112,7 @@ impl Event {
                             cmd.timestamp = Some(timestamp);
                         }
                         OptionalArg::Payload(payload) => {
-                            if !cmd.payload.is_empty() {
+                            if std::mem::replace(&mut seen_payload, true) {
                                 return Err(easy::Error::message_format(
                                     "payload already specified",
                                 ));
@@ -119,7 +121,7 @@ impl Event {
                             cmd.payload = payload.to_vec();
                         }
                         OptionalArg::Metadata(metadata) => {
-                            if !cmd.metadata.is_empty() {
+                            if std::mem::replace(&mut seen_metadata, true) {
                                 return Err(easy::Error::message_format(
                                     "metadata already specified",
                                 ));
